@@ -69,6 +69,21 @@ def run(c):
     rd = c.rd.path
     vlib.ensure_hooks_build()
     exe = vlib.build_harness("ray_harness")
+    # ---- Layer B refines Layer A: the cell-by-cell march (spec/RayMarch.tla) ends with exactly the closed-form geometry of
+    # RayLattice for every start point, direction, opacity pattern and target of small blocks
+    shapes = [((2, 2, 1), "MC_Kaps4", 2)] if tier == "quick" else [((2, 2, 1), "MC_Kaps4", 3), ((2, 1, 2), "MC_Kaps4", 2), ((3, 1, 1), "MC_Kaps3", 3)]
+
+    def mjob(k):
+        (nx, ny, nz), kaps, dmax = shapes[k]
+        cfg = os.path.join(rd, "raymarch_%d.cfg" % k)
+        open(cfg, "w").write("CONSTANTS NX = %d NY = %d NZ = %d DMax = %d\nKaps <- %s\nTaus2 <- MC_Taus\nSPECIFICATION Spec\n"
+                             "INVARIANTS MarchRefinesGeometry PathSum\nPROPERTY Terminates\nCHECK_DEADLOCK FALSE\n" % (nx, ny, nz, dmax, kaps))
+        return shapes[k], vlib.tlc_model("MC_RayMarch.tla", cfg, rd, workers=4, timeout=3000, must_take=("Step",), tag="raymarch_%d" % k)
+
+    with ThreadPoolExecutor(max_workers=3) as ex:
+        for sh, r in ex.map(mjob, range(len(shapes))):
+            c.add_model("RayMarch refines RayLattice (MarchRefinesGeometry, PathSum, Terminates)", r,
+                        "block %dx%dx%d, all lattice start points, directions in -%d..%d, 3 opacity patterns, 3 targets" % (sh[0] + (sh[2], sh[2])))
     cases = gen_cases(tier, rng)
     chunks = [cases[i:i + 600] for i in range(0, len(cases), 600)]
 
